@@ -17,6 +17,20 @@ func (e *Engine) dataVal(v Val) Val {
 }
 
 func (e *Engine) execCall(fc *fnCtx, b *ssa.BasicBlock, st *State, c *ssa.CallCommon, instr *ssa.Call, pos token.Pos) Val {
+	if fc.contract != nil && len(fc.contract.Preserves) > 0 && len(e.inlineStack) == 0 && instr != nil {
+		if key := e.callKey(fc, c, instr); key != "" {
+			if ds, ok := fc.contract.Preserves[key]; ok {
+				pre := st.clone()
+				v := e.execCall0(fc, b, st, c, instr, pos)
+				e.applyPreserves(fc, pre, st, ds, key)
+				return v
+			}
+		}
+	}
+	return e.execCall0(fc, b, st, c, instr, pos)
+}
+
+func (e *Engine) execCall0(fc *fnCtx, b *ssa.BasicBlock, st *State, c *ssa.CallCommon, instr *ssa.Call, pos token.Pos) Val {
 	var resT types.Type = c.Signature().Results()
 	if c.Signature().Results().Len() == 1 {
 		resT = c.Signature().Results().At(0).Type()
@@ -456,7 +470,28 @@ func (e *Engine) applyContract(fc *fnCtx, st *State, c *Contract, args []Val, po
 		e.addObl(fc.fn, "pre-of", fmt.Sprintf("%s[%s]", calleeName, lbl), pos, st.Reach, f)
 	}
 	if c.ModAll {
-		e.havocAll(st, "modifies * of "+calleeName)
+		// type-visibility frame: a callee in another package that receives no function value cannot reach maps whose
+		// key or element type is an unexported type of the calling package
+		curPkg := ""
+		if fc.fn.Pkg != nil {
+			curPkg = fc.fn.Pkg.Pkg.Path()
+		}
+		calleePkg := ""
+		if c.Pkg != nil {
+			calleePkg = c.Pkg.PkgPath
+		}
+		hasFuncArg := false
+		for _, a := range args {
+			if a.Clo != nil {
+				hasFuncArg = true
+			}
+		}
+		if curPkg != "" && calleePkg != curPkg && !hasFuncArg && !c.IsISpec {
+			e.havocAllExcept(st, "modifies * of "+calleeName, func(n string) bool { return e.privateHeaps[n] == curPkg })
+			e.note("type-visibility frame: maps over unexported types of " + curPkg + " survive the call to " + calleeName)
+		} else {
+			e.havocAll(st, "modifies * of "+calleeName)
+		}
 	} else {
 		for _, m := range c.Modifies {
 			e.havocDesignator(env, st, m)
@@ -581,6 +616,19 @@ func (e *Engine) designatorLocs(env *SpecEnv, d SExpr) []heapLoc {
 		if g := e.lookupGhost(env, x.Name); g != nil {
 			return []heapLoc{{"GH_" + g.Pkg.PkgPath + "." + g.Name, e.sortOf(g.Type), ""}}
 		}
+		if env.fc != nil {
+			// a heap-allocated (captured / address-taken) local variable: the variable's own cell
+			for _, b := range env.fc.fn.Blocks {
+				for _, ins := range b.Instrs {
+					if a, ok := ins.(*ssa.Alloc); ok && a.Heap && a.Comment == x.Name {
+						if rv, ok := env.fc.regs[a]; ok {
+							hn, hs := e.ptrHeapName(deref(a.Type()))
+							return []heapLoc{{hn, hs, rv.T}}
+						}
+					}
+				}
+			}
+		}
 		if obj := env.pkg.Types.Scope().Lookup(x.Name); obj != nil {
 			if v, ok := obj.(*types.Var); ok {
 				return []heapLoc{{"G_" + env.pkg.PkgPath + "." + x.Name, e.sortOf(v.Type()), ""}}
@@ -636,5 +684,78 @@ func (e *Engine) checkCallAsserts(fc *fnCtx, st *State, c *ssa.CallCommon, instr
 		}
 		f := e.trSpec(env, cl.E).T
 		e.addObl(fc.fn, "assert", "["+key+"] "+cl.Text, pos, st.Reach, f)
+	}
+}
+
+// callKey: "call <callee>#<occurrence>" for a static call of the function under verification.
+func (e *Engine) callKey(fc *fnCtx, c *ssa.CallCommon, instr *ssa.Call) string {
+	sc := c.StaticCallee()
+	if sc == nil {
+		return ""
+	}
+	name := sc.String()
+	if o := sc.Origin(); o != nil {
+		name = o.String()
+	}
+	name = strings.ReplaceAll(name, repoMod+"/", "")
+	if fc.callOcc == nil {
+		fc.callOcc = map[*ssa.Call]int{}
+		counts := map[string]int{}
+		for _, b := range fc.fn.Blocks {
+			for _, ins := range b.Instrs {
+				if call, ok := ins.(*ssa.Call); ok {
+					if f := call.Common().StaticCallee(); f != nil {
+						n := f.String()
+						if o := f.Origin(); o != nil {
+							n = o.String()
+						}
+						n = strings.ReplaceAll(n, repoMod+"/", "")
+						fc.callOcc[call] = counts[n]
+						counts[n]++
+					}
+				}
+			}
+		}
+	}
+	return fmt.Sprintf("call %s#%d", name, fc.callOcc[instr])
+}
+
+// applyPreserves: trusted frame annotation of the caller - the listed locations have the same content after the call.
+func (e *Engine) applyPreserves(fc *fnCtx, pre, post *State, ds []SExpr, key string) {
+	env := fc.env.with(pre)
+	env.fc = fc
+	env.vars = map[string]Val{}
+	for k, v := range fc.env.vars {
+		if _, isParam := fc.env.entryVals[k]; isParam {
+			if _, ok := e.localByName(env, k); ok {
+				continue
+			}
+		}
+		env.vars[k] = v
+	}
+	for _, d := range ds {
+		if call, ok := d.(SCall); ok {
+			if id, ok := call.Fun.(SIdent); ok && id.Name == "allElems" && len(call.Args) == 1 {
+				// allElems(T): every slice backing array with element type T that existed before the call
+				t, err := e.w.resolveType(env.pkg, env.pos, specString(call.Args[0]))
+				if err != nil {
+					e.specFail(env, err.Error())
+				}
+				hn, hs := e.sliceHeapName(t)
+				hp, hq := e.heapIn(pre, hn, hs), e.heapIn(post, hn, hs)
+				e.assume(post, "(forall ((r Int)) (! (=> (<= r "+e.allocCounter(pre)+") (= (select "+hq+" r) (select "+hp+" r))) :pattern ((select "+hq+" r))))")
+				e.w.Trusted["caller-side frame assumption: "+key+" preserves "+specString(d)] = true
+				continue
+			}
+		}
+		for _, loc := range e.designatorLocs(env, d) {
+			if loc.ref == "" {
+				post.Heaps[loc.heap] = e.heapIn(pre, loc.heap, loc.sort)
+				continue
+			}
+			hp, hq := e.heapIn(pre, loc.heap, loc.sort), e.heapIn(post, loc.heap, loc.sort)
+			e.assume(post, eq(sel(hq, loc.ref), sel(hp, loc.ref)))
+		}
+		e.w.Trusted["caller-side frame assumption: "+key+" preserves "+specString(d)] = true
 	}
 }
